@@ -26,6 +26,8 @@ def gen_plan(rng, tier, idx, opts):
     cfg = {}
     if model == "general":
         cfg = {"n": round(rng.uniform(1.5, 5.0), 3), "C": round(rng.uniform(20, 140), 2)}
+        if rng.random() < 0.15:
+            cfg["C"] = 0.0            # the loss is EXACTLY 0 dB at d = 1: admissible (linear value 1), the end point of the range
     elif model == "freespace":
         cfg = {"n": rng.choice([2.0, 2.0, round(rng.uniform(1.6, 4.5), 3)]), "fc": rng.choice([900.0, 2000.0, round(rng.uniform(100, 6000), 1)])}
     elif model == "metis":
@@ -218,6 +220,8 @@ def execute(plan):
             walls_list = [None]
         else:
             d = np.sort(10 ** rs.uniform(-3, 3, size=18))               # km, six decades
+            if model == "general":
+                d = np.sort(np.append(d[:-1], 1.0))                     # log10(1) = 0 exactly
             walls_list = [None]
         for walls in walls_list:
             kw = {} if walls is None else {"num_walls": walls}
